@@ -105,6 +105,11 @@ pub fn reset() {
     tokio::reset();
 }
 
+/// resets only the call monitors (between the macro side and the reference side of one program)
+pub fn reset_calls() {
+    unsafe { SEQ = 0; TRACE = 0; NCALLS = 0; CNT = [0; NEV]; FIRST = [0; NEV]; LAST = [0; NEV]; ARG = [0; NEV]; ARGX = [0; NEV]; }
+}
+
 // ---------------------------------------------------------------------------------------------
 // move-only token (no Clone, no Copy; Drop counted)
 // ---------------------------------------------------------------------------------------------
